@@ -80,6 +80,10 @@ class OrphanScn:
             if act == "sink":
                 for i in range(5):
                     chans[0].send(b"y" * 20)
+            if P.get("flood"):
+                # mid data transfer to a worker that does not drain its channel: many small items pile up
+                for i in range(P["flood"]):
+                    chans[0].send(i)
             em.sleep(1.0)
             if P.get("mode") == "close_write":
                 ctx["k"] = "close_write"
@@ -213,6 +217,21 @@ def run(tier: str, only=None) -> int:
                 Pw = {"activity": act, "backend": backend, "N": N, "ks": sub, "warm": warm, "explore": True}
                 st = harness.run_exploration(rep, PID, name, OrphanScn, Pw, {"cut": 1, "ps": 1, "free": 0} if tier == "quick" else {"cut": 1, "ps": 1, "free": 1}, max_execs=cap, params_desc={"death_offsets": len(sub)})
                 rungs |= {o[0] for o in st.outcomes}
+    # many items piled up on a channel the worker does not drain (it sleeps / is busy / swallows interrupts)
+    for act in ("sleep", "swallow", "busy"):
+        for flood in (100, 600, 1500) if tier == "quick" else (100, 600, 1500, 5000):
+            name = f"orphan-flood{flood}/{act}"
+            if only and only not in name:
+                continue
+            if tier == "quick" and act == "busy" and flood != 600:
+                continue
+            P = {"activity": act, "backend": "thread", "N": None, "flood": flood}
+            ref = explorer.run_once(OrphanScn.scenario, OrphanScn.oracle, P, [], horizon=2000000)
+            N, boot = ref.outcome[1], ref.outcome[2]
+            sub = sorted({N, N - 1, N - 9, boot + (N - boot) // 2})
+            Pf = {"activity": act, "backend": "thread", "N": N, "ks": sub, "flood": flood}
+            st = harness.run_exploration(rep, PID, name, OrphanScn, Pf, {"cut": 1, "ps": 0, "free": 0}, max_execs=cap, horizon=2000000, params_desc={"death_offsets": sub, "items": flood})
+            rungs |= {o[0] for o in st.outcomes}
     rep.cov["rungs_reached"] = sorted(r for r in rungs if r)
     if not only and not {"shutdown", "sigint", "os._exit"} <= rungs:
         rep.internal.append(f"vacuity guard: escalation rungs reached {rungs}, expected all three")
